@@ -91,9 +91,40 @@ func ruleTxTypestate(c *Ctx, r *Report, rule string) {
 		fn *ssa.Function
 		T  ssa.Value
 	}
+	// the slot the transaction is kept in when a closure captures it (`tx` then lives in memory): loads of it are T
+	txSlotOf := func(v txView) *ssa.Alloc {
+		if v.T.Referrers() == nil {
+			return nil
+		}
+		for _, rf := range *v.T.Referrers() {
+			st, ok := rf.(*ssa.Store)
+			if !ok || st.Val != v.T {
+				continue
+			}
+			al, ok := st.Addr.(*ssa.Alloc)
+			if !ok || al.Referrers() == nil {
+				continue
+			}
+			only := true
+			for _, r2 := range *al.Referrers() {
+				if s2, ok := r2.(*ssa.Store); ok && s2.Addr == ssa.Value(al) && s2.Val != v.T {
+					only = false
+				}
+			}
+			if only {
+				return al
+			}
+		}
+		return nil
+	}
 	isT := func(v txView, a ssa.Value) bool {
 		if a == v.T {
 			return true
+		}
+		if u, ok := a.(*ssa.UnOp); ok && u.Op == token.MUL {
+			if sl := txSlotOf(v); sl != nil && u.X == ssa.Value(sl) {
+				return true
+			}
 		}
 		if p, ok := v.T.(*ssa.Parameter); ok && spilledParam(a) == p {
 			return true
@@ -124,6 +155,46 @@ func ruleTxTypestate(c *Ctx, r *Report, rule string) {
 		for _, ci := range findCalls(v.fn, "database/sql.Tx.Rollback") {
 			if onTv(v, ci) {
 				out = append(out, ci)
+			}
+		}
+		// a closure of this function that captures the transaction's slot and rolls it back on every path stands for
+		// the Rollback where it is called
+		if sl := txSlotOf(v); sl != nil {
+			for _, ci := range callsOf(v.fn) {
+				mc, ok := ci.Common().Value.(*ssa.MakeClosure)
+				if !ok {
+					continue
+				}
+				g, ok := mc.Fn.(*ssa.Function)
+				if !ok || g.Blocks == nil {
+					continue
+				}
+				for i, b := range mc.Bindings {
+					if b != ssa.Value(sl) || i >= len(g.FreeVars) {
+						continue
+					}
+					fv := g.FreeVars[i]
+					done := map[*ssa.BasicBlock]bool{}
+					for _, rb := range findCalls(g, "database/sql.Tx.Rollback") {
+						if u, ok := rb.Common().Args[0].(*ssa.UnOp); ok && u.Op == token.MUL && u.X == ssa.Value(fv) {
+							done[rb.Block()] = true
+						}
+					}
+					if len(done) == 0 {
+						continue
+					}
+					always := true
+					for blk := range reachAvoiding(g.Blocks[0], done) {
+						if len(blk.Instrs) > 0 {
+							if _, isRet := blk.Instrs[len(blk.Instrs)-1].(*ssa.Return); isRet {
+								always = false
+							}
+						}
+					}
+					if always {
+						out = append(out, ci)
+					}
+				}
 			}
 		}
 		// a helper introduced after the reference tree that always rolls back the transaction it is given
@@ -500,7 +571,7 @@ func ruleTxTypestate(c *Ctx, r *Report, rule string) {
 						continue
 					}
 					for _, rr := range *fa.Referrers() {
-						if st, ok := rr.(*ssa.Store); ok && st.Addr == fa && isPlusOne(st.Val) && instrDominates(st, lift(syncedCall)) {
+						if st, ok := rr.(*ssa.Store); ok && st.Addr == fa && isPlusOne(st.Val) && ((st.Parent() == syncedCall.Parent() && instrDominates(st, syncedCall)) || (st.Parent() != syncedCall.Parent() && instrDominates(st, lift(syncedCall)))) {
 							okBS = true
 							detail = "a fresh record holding " + hpath + "+1"
 						}
